@@ -23,6 +23,7 @@ pub enum Case {
     FromIter(FromIterCase),
     Delta(DeltaCase),
     Epoch(crate::multi::EpochCase),
+    Long(crate::multi::LongCase),
 }
 
 impl Case {
@@ -37,6 +38,7 @@ impl Case {
             Case::FromIter(_) => "from_iter_history",
             Case::Delta(_) => "address_delta_boundary",
             Case::Epoch(_) => "many_builders_in_a_row",
+            Case::Long(_) => "long_build_interrupted_before_every_write",
         }
     }
 }
@@ -532,6 +534,7 @@ pub fn case_to(c: &Case) -> Value {
         }}),
         Case::Delta(d) => json!({"address_delta_boundary": {"target_delta": d.target, "seed": d.seed.to_string()}}),
         Case::Epoch(e) => json!({"many_builders_in_a_row": {"items": items_to(&e.items), "valued": e.valued, "empty_builders_between_the_two_builds": e.between}}),
+        Case::Long(l) => json!({"long_build_interrupted_before_every_write": {"keys": l.n, "seed": l.seed.to_string(), "valued": l.valued, "one_byte_acceptance_every": l.short_every}}),
         Case::FromIter(f) => json!({"from_iter": {"entry_point": f.entry.name(), "items": items_to(&f.items), "iterator_size_hint": hint_name(f.hint)}}),
         Case::MemRead(m) => json!({"mem_read": {
             "n_small": m.n_small, "n_large": m.n_large, "fanout": m.fanout,
@@ -574,6 +577,14 @@ pub fn case_from(v: &Value) -> R<Case> {
             items: items_from(get(x, "items")?)?,
             valued: get(x, "valued")?.as_bool().ok_or("valued")?,
             between: get_u64(x, "empty_builders_between_the_two_builds")?,
+        }));
+    }
+    if let Some(x) = v.get("long_build_interrupted_before_every_write") {
+        return Ok(Case::Long(crate::multi::LongCase {
+            n: get_u64(x, "keys")?,
+            seed: get_str(x, "seed")?.parse().map_err(|_| "seed")?,
+            valued: get(x, "valued")?.as_bool().ok_or("valued")?,
+            short_every: get_u64(x, "one_byte_acceptance_every")?,
         }));
     }
     if let Some(x) = v.get("address_delta_boundary") {
